@@ -21,7 +21,8 @@ connection) or a failed first connection; `OkRun a s steps` says the schedule `s
   interaction-by-interaction model `fineCommand` (`Nsq.Model.LookupPeer`) of `Command` / `connectCallback`.
 
 Wall-clock: k ticks after the last fault lie within (k+1) heartbeat intervals plus the time the Commands themselves
-take (each bounded by the 1 s dial/read/write deadlines per interaction); the harness measures ticks (heartbeat log
+take (each round trip bounded by 1 s ONLY on the tree with fixes/F39_lookup_peer_deadline_per_round_trip.patch: today the read deadline is per Read and a drip-fed reply
+is never timed out - finding `slow-reply-holds-lookup-loop`); the harness measures ticks (heartbeat log
 lines of the real `lookupLoop`) and time.
 -/
 namespace Nsq.Props.C16Ticks
